@@ -3,7 +3,7 @@
     index directory; every file-system mutation is an [op], every printed line a [line]).
     [run m tree w c inv]: the command [c] (sync over roots / remove with selectors) in mode [m] on the world
     [tree] (directory tree), [w] (what a build of each repository would record) and the index [inv]. *)
-From ZV Require Import Lib.Base Model.LocalSync Proofs.LocalSync Proofs.LocalSyncConv Proofs.LocalSyncMore.
+From ZV Require Import Lib.Base Model.LocalSync Proofs.LocalSync Proofs.LocalSyncConv Proofs.LocalSyncMore Proofs.LocalSyncIdem.
 
 (** Without -f neither sync nor remove performs any file-system mutation, for every world, every index state
     (including unreadable shards) and every command: no shard removal, no build, and also no MkdirAll of the
@@ -27,6 +27,21 @@ Theorem C33_announce_faithful : forall tree w c inv,
 Proof. exact announce_faithful. Qed.
 Print Assumptions C33_announce_faithful.
 
+(** The same, spelled out for the [remove] sub-command alone (an instance of [C33_announce_faithful]: [run] on
+    [CRemove sels] is [run_remove], which looks at neither the directory tree nor the world): the shard files of the
+    "Would remove" lines of `zoekt-local-sync remove SEL...` are exactly the files `remove -f SEL...` removes, in the
+    same order; neither mode indexes anything; and the preview fails iff the forced run fails, with the same error
+    class (unreadable inventory, selector not found, selector ambiguous) — for every index and every selector list. *)
+Theorem C33_remove_announce_faithful : forall sels inv,
+  let d := run_remove Dry sels inv in
+  let f := run_remove Force sels inv in
+  r_ops d = [] /\
+  announced_removals (r_out d) = performed_removals (r_ops f) /\
+  announced_indexing (r_out d) = [] /\ performed_indexing (r_ops f) = [] /\
+  r_status d = r_status f.
+Proof. exact remove_announce_faithful. Qed.
+Print Assumptions C33_remove_announce_faithful.
+
 (** A repository the sync preview reports "Up to date" has its first shard in the index, and the forced run on
     the same state leaves that shard alone (neither pruned nor rebuilt): the index entry read afterwards is the
     one that was there. *)
@@ -36,6 +51,57 @@ Theorem C33_up_to_date_untouched : forall tree w roots inv n,
   find_file (n, 0) (apply_ops inv (r_ops (run_sync Force tree w roots inv))) = find_file (n, 0) inv.
 Proof. exact up_to_date_untouched. Qed.
 Print Assumptions C33_up_to_date_untouched.
+
+(** preview, -f, preview on the same state (sync).  [wf inv]: the index directory looks like zoekt's builders leave
+    it (Proofs/LocalSyncConv.v; true of every state reachable by the tool, C34_wf_on_every_history).
+    [distinct_sources specs]: no two discovered repositories have the same source once a final ".git" component is
+    dropped (planPrune's map key) — see [C33_sync_idempotent_needs_distinct_sources].  The first preview leaves the
+    state alone ([inv0 = inv]); if the forced run then succeeds, the second preview announces NO removal and NO
+    indexing, reports every discovered repository "Up to date", succeeds — and a second forced run would perform no
+    shard operation. *)
+Theorem C33_sync_idempotent : forall tree w roots inv specs,
+  wf inv -> discover tree roots = Ok specs -> distinct_sources specs ->
+  let inv0 := apply_ops inv (r_ops (run_sync Dry tree w roots inv)) in
+  let f := run_sync Force tree w roots inv0 in
+  r_status f = 0%N ->
+  let inv' := apply_ops inv0 (r_ops f) in
+  let d2 := run_sync Dry tree w roots inv' in
+  inv0 = inv /\
+  announced_removals (r_out d2) = [] /\ announced_indexing (r_out d2) = [] /\
+  announced_up_to_date (r_out d2) = map sp_name specs /\ r_status d2 = 0%N /\
+  shard_ops (r_ops (run_sync Force tree w roots inv')) = [].
+Proof. exact sync_idempotent. Qed.
+Print Assumptions C33_sync_idempotent.
+
+(** The exact output of that second preview: one "Up to date" line per discovered repository, in discovery order,
+    then the closing hint; status 0; no operation. *)
+Theorem C33_second_preview_output : forall tree w roots inv specs,
+  wf inv -> discover tree roots = Ok specs -> distinct_sources specs ->
+  r_status (run_sync Force tree w roots inv) = 0%N ->
+  let inv' := apply_ops inv (r_ops (run_sync Force tree w roots inv)) in
+  r_out (run_sync Dry tree w roots inv') = map utd_line specs ++ [LPassF] /\
+  r_status (run_sync Dry tree w roots inv') = 0%N /\
+  r_ops (run_sync Dry tree w roots inv') = [].
+Proof. exact sync_second_preview. Qed.
+Print Assumptions C33_second_preview_output.
+
+(** [distinct_sources] cannot be dropped: a root that is itself a directory called ".git" (holding another ".git",
+    so that it counts as a working tree named ".git"), given next to the working tree around it, yields two
+    repositories with ONE normalised source; sync -f from the empty index succeeds and indexes both, and the next
+    preview announces the removal and the re-indexing of ".git" — forever.  (Model-level witness; the harness does
+    not generate ".git" inside ".git".) *)
+Theorem C33_sync_idempotent_needs_distinct_sources : exists tree w roots specs,
+  wf [] /\ discover tree roots = Ok specs /\
+  r_status (run_sync Force tree w roots []) = 0%N /\
+  let inv' := apply_ops [] (r_ops (run_sync Force tree w roots [])) in
+  announced_removals (r_out (run_sync Dry tree w roots inv')) <> [] /\
+  announced_indexing (r_out (run_sync Dry tree w roots inv')) <> [].
+Proof.
+  exists twin_tree, twin_world, twin_roots, [ mkSpec dot_git twin_src_g; mkSpec twin_a twin_src_a ].
+  destruct sync_idempotent_needs_distinct_sources_w as (Hd & Hs & Hr & Hi).
+  split; [exact wf_nil|]. split; [exact Hd|]. split; [exact Hs|]. cbv zeta. rewrite Hr, Hi. split; discriminate.
+Qed.
+Print Assumptions C33_sync_idempotent_needs_distinct_sources.
 
 (** The preview as it was before the repair (fix 06cdaac in /repo: IndexGitRepo(DryRun) evaluated on the
     unpruned index) was NOT faithful: a repository moved from one root to another with an unchanged name is
@@ -69,3 +135,19 @@ Example C33_nonvacuous_remove :
   r_status (run Dry moved_tree moved_world (CRemove [[120]%N]) moved_inv) = E_NOT_FOUND /\
   shard_ops (r_ops (run Force moved_tree moved_world (CRemove [[120]%N]) moved_inv)) = [].
 Proof. vm_compute. repeat split; reflexivity. Qed.
+
+(** Non-vacuity (idempotence): on the moved-repository state all hypotheses of [C33_sync_idempotent] hold; the forced
+    run removes one shard and builds one, and the second preview prints one "Up to date" line and the hint. *)
+Example C33_nonvacuous_idempotent :
+  wf moved_inv /\
+  (exists specs, discover moved_tree moved_roots = Ok specs /\ distinct_sources specs /\ length specs = 1) /\
+  r_status (run_sync Force moved_tree moved_world moved_roots moved_inv) = 0%N /\
+  r_out (run_sync Dry moved_tree moved_world moved_roots
+           (apply_ops moved_inv (r_ops (run_sync Force moved_tree moved_world moved_roots moved_inv))))
+    = [LUpToDate moved_name moved_src_new; LPassF].
+Proof.
+  split; [exact moved_inv_wf|]. split.
+  - eexists. split; [vm_compute; reflexivity|]. split; [|reflexivity].
+    apply moved_distinct_sources. vm_compute. reflexivity.
+  - vm_compute. split; reflexivity.
+Qed.
